@@ -23,10 +23,13 @@ RECURSIVE EncSeq(_, _, _)
 EncSeq(ts, vs, i) == IF i > Len(vs) THEN <<>> ELSE Enc(ts[i], vs[i]) \o EncSeq(ts, vs, i + 1)
 RECURSIVE EncAll(_, _, _)
 EncAll(t, vs, i) == IF i > Len(vs) THEN <<>> ELSE Enc(t, vs[i]) \o EncAll(t, vs, i + 1)
+\* the elements of a vector of scalars of width w, one after the other (position-by-position form of EncAll for scalar elements:
+\* TLC evaluates it in linear time, so vectors whose elements take 64 KiB and more can be judged; SerializeMC checks it against EncAll)
+FlatScalars(vs, w) == [j \in 1..(Len(vs) * w) |-> vs[((j - 1) \div w) + 1][((j - 1) % w) + 1]]
 Enc(t, v) ==
    CASE t.k = "scalar" -> v
      [] t.k = "str" -> Count16(Len(v)) \o v
-     [] t.k = "vec" -> Count16(Len(v)) \o EncAll(t.t, v, 1)
+     [] t.k = "vec" -> Count16(Len(v)) \o (IF t.t.k = "scalar" THEN FlatScalars(v, t.t.w) ELSE EncAll(t.t, v, 1))
      [] t.k = "pair" -> Enc(t.a, v[1]) \o Enc(t.b, v[2])
      [] t.k \in {"tuple", "struct"} -> EncSeq(t.ts, v, 1)
      [] t.k = "map" -> Count16(Len(v)) \o EncAll([k |-> "pair", a |-> t.a, b |-> t.b], v, 1)
